@@ -185,7 +185,9 @@ Fixpoint close_iters (n : nat) (l : list (option N)) (fl : bool) (lg : list N) :
   end.
 
 (* returns (aborted, state): when the interrupted return() call escapes, the panic goes past handleThrow;
-   the truncation still happens (deferred dropStacks, bf68b95) *)
+   the truncation still happens (deferred dropStacks, bf68b95), and the recover point that was running
+   handleThrow re-runs it for the escaping uncatchable payload (handleRecovered, bd17f67): the owner of the run
+   loop unwinds to its marker frame exactly as for an interrupt seen by the loop itself *)
 Definition restore_stacks (c : cfg) (itlen : nat) s : bool * st :=
   let n := length (its s) - itlen in
   let '(a, l', lg') := close_iters n (its s) (flag s) (log s) in
